@@ -349,7 +349,82 @@ func checkC14Dec(t *Toks) string {
 	return "OK recognised"
 }
 
+// re-encoding of a recognised string through the matching From*/To* pair; "" when fine
+func c14Reencode(s string) string {
+	ty, err := address.DecodeType(s)
+	if err != nil {
+		return ""
+	}
+	switch ty {
+	case address.P2Pkh, address.P2Sh:
+		d, err := address.FromBase58(s)
+		if err != nil || address.ToBase58(d) != s {
+			return "base58"
+		}
+	case address.ConfidentialP2Pkh, address.ConfidentialP2Sh:
+		d, err := address.FromBase58Confidential(s)
+		if err != nil || address.ToBase58Confidential(d) != s {
+			return "base58-conf"
+		}
+	case address.P2Wpkh, address.P2Wsh, address.P2TR:
+		d, err := address.FromBech32(s)
+		if err != nil {
+			return "bech32"
+		}
+		if r, err := address.ToBech32(d); err != nil || !strings.EqualFold(r, s) {
+			return "bech32"
+		}
+	default:
+		d, err := address.FromBlech32(s)
+		if err != nil {
+			return "blech32"
+		}
+		d.PublicKey = cp(d.PublicKey)
+		if r, err := address.ToBlech32(d); err != nil || !strings.EqualFold(r, s) {
+			return "blech32"
+		}
+	}
+	return ""
+}
+
+// C14 over a history: what the decoders answer for a string does not depend on what callers did
+// with earlier answers (every returned slice overwritten, interleaved with another address),
+// and a recognised string still re-encodes to itself afterwards
+func checkC14Hist(t *Toks) string {
+	s1, s2 := string(t.Hex()), string(t.Hex())
+	pre1, pre2 := guard(func() string { return c14Reencode(s1) }), guard(func() string { return c14Reencode(s2) })
+	f1, f2, l1, l2 := adrHistory(s1, s2)
+	if l1 != f1 {
+		return fail("history-decode", "first-string-answers-changed/"+firstDiffKey(f1, l1))
+	}
+	if l2 != f2 {
+		return fail("history-decode", "second-string-answers-changed/"+firstDiffKey(f2, l2))
+	}
+	if pre1 == "" {
+		if x := guard(func() string { return c14Reencode(s1) }); x != "" {
+			return fail("history-reencode", x)
+		}
+	}
+	if pre2 == "" {
+		if x := guard(func() string { return c14Reencode(s2) }); x != "" {
+			return fail("history-reencode", x)
+		}
+	}
+	return "OK"
+}
+
+func firstDiffKey(a, b string) string {
+	fa, fb := strings.Split(a, " "), strings.Split(b, " ")
+	for i := range fa {
+		if i >= len(fb) || fa[i] != fb[i] {
+			return strings.SplitN(fa[i], "=", 2)[0]
+		}
+	}
+	return "?"
+}
+
 func init() {
+	checks["C14/adrhist"] = checkC14Hist
 	checks["C14/adrform"] = checkC14Form
 	checks["C14/adrcase"] = checkC14Case
 	checks["C14/adrconst"] = checkC14Const
